@@ -14,7 +14,7 @@ import ast, json, os, re, struct
 import cybuild
 
 # model flag: "1" after the orchestrator applied proposed_fixes/C09-multiplied_sequence_stale_constant.diff
-SEQ_CRES = os.environ.get("C09_SEQ_CRES", "0") == "1"
+SEQ_CRES = os.environ.get("C09_SEQ_CRES", "1") == "1"
 
 # run-time names: index in the model's environment, name, Python value text, C type in the typed function
 VARS = [("n0", "0", "Py_ssize_t"), ("n1", "1", "Py_ssize_t"), ("n2", "2", "Py_ssize_t"), ("n3", "3", "int"),
